@@ -16,7 +16,7 @@ klass("FortranStringReader", bases=("FortranReaderBase",), module="fparser.commo
 
 klass("Line", module="fparser.common.readfortran", fields=dict(
     line="str", span="tuple[int,int]", label="int?", name="str?", strline="str?",
-    is_f2py_directive="bool", parse_cache="dict[int,ref?]"))
+    is_f2py_directive="bool", parse_cache="dict[cls,ref?]"))
 klass("CppDirective", bases=("Line",), module="fparser.common.readfortran")
 klass("Comment", module="fparser.common.readfortran", fields=dict(comment="str", inline="bool"))
 
@@ -36,7 +36,7 @@ klass("FortranSyntaxError", bases=("FparserException",), exception=True)
 klass("InternalError", bases=("FparserException",), exception=True)
 klass("InternalSyntaxError", bases=("FparserException",), exception=True)
 
-klass("Base", module="fparser.two.utils", fields=dict(parent="ref:Base?", item="ref?", string="any", content="list[ref:Base]"))
+klass("Base", module="fparser.two.utils", fields=dict(parent="ref:Base?", item="ref?", string="any", content="list[ref:Base]", items="any"))
 klass("BlockBase", bases=("Base",), module="fparser.two.utils")
 klass("StmtBase", bases=("Base",), module="fparser.two.utils")
 klass("EndStmtBase", bases=("StmtBase",), module="fparser.two.utils")
@@ -48,3 +48,6 @@ ghost("view", "list[ref]")
 for _c in ("Label_Do_Stmt", "Label_Do_Stmt_2008", "End_Do", "End_Do_Stmt", "Continue_Stmt", "Else_If_Stmt", "Else_Stmt",
            "End_If_Stmt", "Masked_Elsewhere_Stmt", "Elsewhere_Stmt", "End_Where_Stmt", "Include_Stmt", "Directive"):
     klass(_c, bases=("Base",))
+
+# C20: number of evaluations of string-level rules (incremented by the protocol contract of a rule call on a string)
+ghost("rule_evals", "int")
